@@ -73,6 +73,7 @@ Definition uri_Hwrite (seg : bytes) (st : uri_wst) : uri_wst :=
   | None => st
   | Some v =>
       if uw_rem st =? 0 then st else
+      if uri_OPT_MAX <? len v then st else
       let w := uri_sethdr_size (uw_rem st) (len v) in
       if w =? 0 then st else
       if uw_rem st - w <? len v then st else
@@ -92,6 +93,7 @@ Proof.
   - rewrite uri_check_seg_spec. cbn [uri_bind].
     destruct (uri_pct_decode seg) as [v|] eqn:Ed; [|reflexivity].
     replace (0 + len v) with (len v) by lia.
+    destruct (uri_OPT_MAX <? len v); [reflexivity|].
     destruct (uri_sethdr_size (uw_rem st) (len v) =? 0); [reflexivity|].
     destruct (uw_rem st - uri_sethdr_size (uw_rem st) (len v) <? len v); [reflexivity|].
     rewrite (uri_decode_seg_spec seg rest v Ed). reflexivity.
@@ -184,7 +186,7 @@ Proof. unfold ext_size. destruct (l <? 13); [lia|]. destruct (l <? 269); lia. Qe
 (* an option the buffer API may write: a well-formed raw segment of the input, decoded once,
    that is not a dot segment *)
 Definition uri_good_opt (dotcheck : bool) (raws : list bytes) (o : bytes) : Prop :=
-  exists seg d, In seg raws /\ uri_pct_decode seg = Some d /\
+  exists seg d, In seg raws /\ uri_pct_decode seg = Some d /\ len d <= uri_OPT_MAX /\
                 (dotcheck = true -> uri_kind d = 0) /\ o = opt_enc 0 d.
 
 Definition uri_wst_inv (dotcheck : bool) (base : Z) (raws : list bytes) (st : uri_wst) : Prop :=
@@ -198,6 +200,7 @@ Proof.
   intros Hin Hdots [H0 [H1 H2]]. unfold uri_Hwrite.
   destruct (uri_pct_decode seg) as [v|] eqn:Ed; [|repeat split; assumption].
   destruct (uw_rem st =? 0); [repeat split; assumption|].
+  destruct (uri_OPT_MAX <? len v) eqn:Emax; [repeat split; assumption|].
   pose proof (len_nonneg v) as Hv.
   destruct (uri_sethdr_size_cases (uw_rem st) (len v) Hv) as [Ew|Ew]; rewrite Ew.
   - cbn [Z.eqb]. repeat split; assumption.
@@ -208,7 +211,7 @@ Proof.
     rewrite len_app, uri_opt_hdr0_len by lia.
     split; [lia|]. split; [lia|].
     constructor; [|exact H2].
-    exists seg, v. repeat split; auto.
+    exists seg, v. split; [exact Hin|]. split; [exact Ed|]. split; [lia|]. split; [|reflexivity].
     intros Hc. rewrite <- (uri_dots_p_decode seg v Ed). auto.
 Qed.
 
@@ -298,14 +301,15 @@ Qed.
 
 (* pushing one decoded segment when there is room for it *)
 Lemma uri_Hwrite_push seg v st :
-  uri_pct_decode seg = Some v -> len (opt_enc 0 v) <= uw_rem st ->
+  uri_pct_decode seg = Some v -> len v <= uri_OPT_MAX -> len (opt_enc 0 v) <= uw_rem st ->
   uri_Hwrite seg st =
   {| uw_ropts := opt_enc 0 v :: uw_ropts st; uw_rem := uw_rem st - len (opt_enc 0 v) |}.
 Proof.
-  intros Ed Hr. unfold uri_Hwrite. rewrite Ed.
+  intros Ed Hmax Hr. unfold uri_Hwrite. rewrite Ed.
   rewrite uri_opt_enc0_len in *. pose proof (len_nonneg v) as Hv.
   pose proof (uri_ext_size_range (len v)).
   destruct (uw_rem st =? 0) eqn:E0; [lia|].
+  destruct (uri_OPT_MAX <? len v) eqn:Em; [lia|].
   rewrite uri_sethdr_size_fit by lia.
   destruct (1 + ext_size (len v) =? 0) eqn:E1; [lia|].
   destruct (uw_rem st - (1 + ext_size (len v)) <? len v) eqn:E2; [lia|].
@@ -316,39 +320,41 @@ Lemma uri_peak_ge ds stack : uri_sumlen (uri_encs stack) <= uri_peak ds stack.
 Proof. destruct ds; cbn [uri_peak]; lia. Qed.
 
 Lemma uri_fold_Hbuf_spec base : forall raws ds stack,
-  uri_decode_all raws = Some ds ->
+  uri_decode_all raws = Some ds -> uri_fits ds = true ->
   uri_peak ds stack <= base ->
   fold_left (fun st seg => uri_Hbuf base seg st) raws
             {| uw_ropts := uri_encs stack; uw_rem := base - uri_sumlen (uri_encs stack) |} =
   {| uw_ropts := uri_encs (uri_resolve ds stack);
      uw_rem := base - uri_sumlen (uri_encs (uri_resolve ds stack)) |}.
 Proof.
-  induction raws as [|seg raws IH]; intros ds stack Hd Hn.
+  induction raws as [|seg raws IH]; intros ds stack Hd Hfit Hn.
   - injection Hd as <-. reflexivity.
   - cbn [uri_decode_all] in Hd.
     destruct (uri_pct_decode seg) as [d|] eqn:Ed; [|discriminate].
     destruct (uri_decode_all raws) as [dt|] eqn:Et; [|discriminate].
     injection Hd as <-. cbn [fold_left uri_resolve uri_peak] in *.
+    unfold uri_fits in Hfit. cbn [forallb] in Hfit. apply andb_true_iff in Hfit.
+    destruct Hfit as [Hfd Hfit]. fold (uri_fits dt) in Hfit.
     unfold uri_Hbuf at 2. rewrite (uri_dots_p_decode seg d Ed).
     unfold uri_next in Hn.
     destruct (uri_kind_cases d) as [[K D1]|[[K [D1 D2]]|[K [D1 D2]]]]; rewrite K; rewrite D1 in *;
       try rewrite D2 in *; cbn [Z.eqb Pos.eqb].
-    + apply IH; [reflexivity|lia].
+    + apply IH; [reflexivity|exact Hfit|lia].
     + assert (E : uri_backup base {| uw_ropts := uri_encs stack;
                                      uw_rem := base - uri_sumlen (uri_encs stack) |} =
                   {| uw_ropts := uri_encs (tl stack);
                      uw_rem := base - uri_sumlen (uri_encs (tl stack)) |}).
       { unfold uri_backup. destruct stack as [|x t]; reflexivity. }
-      rewrite E. apply IH; [reflexivity|lia].
+      rewrite E. apply IH; [reflexivity|exact Hfit|lia].
     + pose proof (uri_peak_ge dt (d :: stack)) as Hp.
       unfold uri_encs in Hp. cbn [map uri_sumlen] in Hp. fold (uri_encs stack) in Hp.
-      rewrite (uri_Hwrite_push seg d _ Ed) by (cbn [uw_rem]; lia).
+      rewrite (uri_Hwrite_push seg d _ Ed) by (unfold uri_OPT_MAX; cbn [uw_rem]; lia).
       cbn [uw_ropts uw_rem].
       change (opt_enc 0 d :: uri_encs stack) with (uri_encs (d :: stack)).
       replace (base - uri_sumlen (uri_encs stack) - len (opt_enc 0 d))
         with (base - uri_sumlen (uri_encs (d :: stack)))
         by (unfold uri_encs; cbn [map uri_sumlen]; lia).
-      apply IH; [reflexivity|lia].
+      apply IH; [reflexivity|exact Hfit|lia].
 Qed.
 
 Lemma uri_encs_rev l : rev (uri_encs l) = uri_encs (rev l).
@@ -361,9 +367,10 @@ Theorem uri_split_path_spec s buflen opts :
 Proof.
   unfold uri_spec_path, uri_path_need. intros Hs Hn.
   destruct (uri_decode_all (uri_raw_path_segs s)) as [ds|] eqn:Ed; [|discriminate].
+  destruct (uri_fits ds) eqn:Hfit; [|discriminate].
   injection Hs as <-.
   rewrite uri_split_path_fold. cbv zeta.
-  pose proof (uri_fold_Hbuf_spec buflen (uri_raw_path_segs s) ds [] Ed Hn) as F.
+  pose proof (uri_fold_Hbuf_spec buflen (uri_raw_path_segs s) ds [] Ed Hfit Hn) as F.
   cbn [uri_encs map uri_sumlen] in F. rewrite Z.sub_0_r in F. rewrite F.
   cbn [uw_ropts uw_rem]. rewrite uri_encs_rev. fold (uri_encs (uri_resolve ds [])).
   rewrite <- (uri_sumlen_rev (uri_encs (uri_resolve ds []))), uri_encs_rev.
@@ -371,29 +378,31 @@ Proof.
 Qed.
 
 Lemma uri_fold_Hwrite_spec base : forall raws ds stack,
-  uri_decode_all raws = Some ds ->
+  uri_decode_all raws = Some ds -> uri_fits ds = true ->
   uri_sumlen (uri_encs stack) + uri_sumlen (uri_encs ds) <= base ->
   fold_left (fun st seg => uri_Hwrite seg st) raws
             {| uw_ropts := uri_encs stack; uw_rem := base - uri_sumlen (uri_encs stack) |} =
   {| uw_ropts := uri_encs (rev ds ++ stack);
      uw_rem := base - uri_sumlen (uri_encs (rev ds ++ stack)) |}.
 Proof.
-  induction raws as [|seg raws IH]; intros ds stack Hd Hn.
+  induction raws as [|seg raws IH]; intros ds stack Hd Hfit Hn.
   - injection Hd as <-. reflexivity.
   - cbn [uri_decode_all] in Hd.
     destruct (uri_pct_decode seg) as [d|] eqn:Ed; [|discriminate].
     destruct (uri_decode_all raws) as [dt|] eqn:Et; [|discriminate].
     injection Hd as <-. cbn [fold_left rev] in *.
+    unfold uri_fits in Hfit. cbn [forallb] in Hfit. apply andb_true_iff in Hfit.
+    destruct Hfit as [Hfd Hfit]. fold (uri_fits dt) in Hfit.
     unfold uri_encs in Hn. cbn [map uri_sumlen] in Hn. fold (uri_encs stack) in Hn.
     fold (uri_encs dt) in Hn. pose proof (uri_sumlen_nonneg (uri_encs dt)) as Hdt.
-    rewrite (uri_Hwrite_push seg d _ Ed) by (cbn [uw_rem]; lia).
+    rewrite (uri_Hwrite_push seg d _ Ed) by (unfold uri_OPT_MAX; cbn [uw_rem]; lia).
     cbn [uw_ropts uw_rem].
     change (opt_enc 0 d :: uri_encs stack) with (uri_encs (d :: stack)).
     replace (base - uri_sumlen (uri_encs stack) - len (opt_enc 0 d))
       with (base - uri_sumlen (uri_encs (d :: stack)))
       by (unfold uri_encs; cbn [map uri_sumlen]; lia).
     rewrite <- app_assoc. cbn [app].
-    apply IH; [reflexivity|].
+    apply IH; [reflexivity|exact Hfit|].
     unfold uri_encs. cbn [map uri_sumlen]. fold (uri_encs stack). fold (uri_encs dt). lia.
 Qed.
 
@@ -401,12 +410,15 @@ Theorem uri_split_query_spec s buflen opts :
   uri_spec_query s = Some opts -> uri_query_need s <= buflen ->
   uri_split_query s buflen = UOk (uri_encs opts, uri_sumlen (uri_encs opts)).
 Proof.
-  unfold uri_spec_query, uri_query_need. intros Hs Hn. rewrite Hs in Hn.
+  unfold uri_spec_query, uri_query_need. intros Hs Hn.
+  destruct (uri_decode_all (uri_raw_query_items s)) as [ds|] eqn:Ed; [|discriminate].
+  destruct (uri_fits ds) eqn:Hfit; [|discriminate].
+  injection Hs as <-.
   rewrite uri_split_query_fold. cbv zeta.
-  pose proof (uri_fold_Hwrite_spec buflen (uri_raw_query_items s) opts [] Hs) as F.
-  cbn [uri_encs map uri_sumlen] in F. rewrite Z.sub_0_r in F. rewrite F by (fold (uri_encs opts); lia).
+  pose proof (uri_fold_Hwrite_spec buflen (uri_raw_query_items s) ds [] Ed Hfit) as F.
+  cbn [uri_encs map uri_sumlen] in F. rewrite Z.sub_0_r in F. rewrite F by (fold (uri_encs ds); lia).
   cbn [uw_ropts uw_rem]. rewrite app_nil_r, uri_encs_rev, rev_involutive.
-  rewrite <- (uri_sumlen_rev (uri_encs (rev opts))), uri_encs_rev, rev_involutive.
+  rewrite <- (uri_sumlen_rev (uri_encs (rev ds))), uri_encs_rev, rev_involutive.
   f_equal. f_equal. lia.
 Qed.
 
@@ -548,6 +560,7 @@ Theorem uri_path_into_optlist_spec s optnum pre opts :
 Proof.
   unfold uri_spec_path. intros Hs.
   destruct (uri_decode_all (uri_raw_path_segs s)) as [ds|] eqn:Ed; [|discriminate].
+  destruct (uri_fits ds); [|discriminate].
   injection Hs as <-.
   rewrite uri_path_into_optlist_fold.
   pose proof (uri_fold_Hopt_spec pre optnum (uri_raw_path_segs s) ds [] Ed) as F.
@@ -572,8 +585,11 @@ Theorem uri_query_into_optlist_spec s optnum pre opts :
   uri_spec_query s = Some opts ->
   uri_query_into_optlist s optnum pre = UOk (pre ++ uri_tag optnum opts).
 Proof.
-  unfold uri_spec_query. intros Hs. rewrite uri_query_into_optlist_fold.
-  rewrite (uri_fold_query_opt optnum _ opts pre Hs). reflexivity.
+  unfold uri_spec_query. intros Hs.
+  destruct (uri_decode_all (uri_raw_query_items s)) as [ds|] eqn:Ed; [|discriminate].
+  destruct (uri_fits ds); [|discriminate].
+  injection Hs as <-. rewrite uri_query_into_optlist_fold.
+  rewrite (uri_fold_query_opt optnum _ ds pre Ed). reflexivity.
 Qed.
 
 Theorem uri_query_into_optlist_safe s optnum pre :
